@@ -8,7 +8,6 @@ import (
 	"sync"
 
 	"github.com/btcsuite/btcd/btcec/v2"
-	"github.com/btcsuite/btcd/btcec/v2/schnorr"
 	"github.com/btcsuite/btcd/btcec/v2/schnorr/musig2"
 
 	"verif/ref/refec"
@@ -19,6 +18,24 @@ func init() {
 	kinds["musig"] = kindMusig
 	kinds["musig-tweak"] = kindMusigTweak
 	kinds["musig-badnonce"] = kindMusigBadNonce
+	kinds["psig-decode"] = kindPsigDecode
+}
+
+// kindPsigDecode: PartialSignature.Decode of an arbitrary byte string: BIP327
+// partial signatures are 32 bytes with int(psig) < n.
+func kindPsigDecode(f *failer) {
+	b := unhex(f, "b")
+	var ps musig2.PartialSignature
+	err := ps.Decode(bytes.NewReader(b))
+	// the decoder reads exactly 32 bytes from the stream
+	want := len(b) >= 32 && refec.Int(b[:32]).Cmp(refec.N) < 0
+	if (err == nil) != want {
+		f.bad("musig2.PartialSignature.Decode/accept", "btcd err=%v, BIP327 accept=%v for %x", err, want, b)
+		return
+	}
+	if err == nil && bigOfScalar(ps.S).Cmp(refec.Int(b[:32])) != 0 {
+		f.bad("musig2.PartialSignature.Decode/value", "got %s want %x", bh(bigOfScalar(ps.S)), b[:32])
+	}
 }
 
 func clonePubs(p []*btcec.PublicKey) []*btcec.PublicKey {
@@ -167,6 +184,22 @@ func refNonce(randB []byte, d *big.Int) (sec, pub []byte) {
 	return sec, pub
 }
 
+var keyAggCache sync.Map // concatenated key list -> *refec.KeyAggCtx
+
+// cachedKeyAgg memoises refec.KeyAgg (a pure function of the key list).
+func cachedKeyAgg(pks [][]byte) (*refec.KeyAggCtx, error) {
+	k := string(bytes.Join(pks, nil))
+	if v, ok := keyAggCache.Load(k); ok {
+		return v.(*refec.KeyAggCtx), nil
+	}
+	c, err := refec.KeyAgg(pks)
+	if err != nil {
+		return nil, err
+	}
+	keyAggCache.Store(k, c)
+	return c, nil
+}
+
 func posRand(i int) []byte { return sha(fmt.Sprintf("c11/musig-rand/%d", i)) }
 
 // kindMusig: one complete MuSig2 run for a key list (with duplicates, in the
@@ -189,6 +222,16 @@ func kindMusig(f *failer) {
 	msg := unhex(f, "msg")
 	var msg32 [32]byte
 	copy(msg32[:], msg)
+	// taproot mode: "" | "bip86" | "root:<hex>" (BIP341/BIP86: one x-only tweak
+	// t = hash_TapTweak(xbytes(Q) || root) of the untweaked aggregate key Q)
+	tap := f.c.F["tap"]
+	var tapRoot []byte
+	if strings.HasPrefix(tap, "root:") {
+		tapRoot = mustHex(strings.TrimPrefix(tap, "root:"))
+	}
+	if tap != "" && len(rtw) != 0 {
+		R.Broken("taproot mode excludes explicit tweaks")
+	}
 
 	privs := make([]*btcec.PrivateKey, u)
 	pubs := make([]*btcec.PublicKey, u)
@@ -208,14 +251,29 @@ func kindMusig(f *failer) {
 	}
 
 	// ---- key aggregation
-	kc0, err0 := refec.KeyAgg(refKeys)
+	kc0, err0 := cachedKeyAgg(refKeys)
 	if err0 != nil {
 		R.Broken("reference KeyAgg failed on valid keys: %v", err0)
 	}
-	kc, errT := refec.KeyAggWithTweaks(refKeys, rtw)
+	if tap != "" {
+		t := refec.TaggedHash("TapTweak", refec.XBytes(kc0.Q), tapRoot)
+		rtw = []refec.Tweak{{T: t, XOnly: true}}
+	}
+	// KeyAggWithTweaks = KeyAgg followed by ApplyTweak per tweak
+	kc, errT := kc0, error(nil)
+	for _, tw := range rtw {
+		if kc, errT = refec.ApplyTweak(kc, tw.T, tw.XOnly); errT != nil {
+			break
+		}
+	}
 	keysArg := clonePubs(pubs)
 	var kopts []musig2.KeyAggOption
-	if len(itw) > 0 {
+	switch {
+	case tap == "bip86":
+		kopts = append(kopts, musig2.WithBIP86KeyTweak())
+	case tap != "":
+		kopts = append(kopts, musig2.WithTaprootKeyTweak(tapRoot))
+	case len(itw) > 0:
 		kopts = append(kopts, musig2.WithKeyTweaks(itw...))
 	}
 	agg, parityAcc, tweakAcc, err := musig2.AggregateKeys(keysArg, sorted, kopts...)
@@ -329,7 +387,7 @@ func kindMusig(f *failer) {
 
 	// ---- partial signatures
 	sc := &refec.SessionCtx{AggNonce: refAgg, PubKeys: refKeys, Tweaks: rtw, Msg: msg}
-	sv, err := refec.GetSessionValues(sc)
+	sv, err := refec.SessionValuesFor(kc, refAgg, msg)
 	if err != nil {
 		R.Broken("reference GetSessionValues failed: %v", err)
 	}
@@ -337,7 +395,12 @@ func kindMusig(f *failer) {
 		R.Add("musig_odd_R", 1)
 	}
 	var sopts []musig2.SignOption
-	if len(itw) > 0 {
+	switch {
+	case tap == "bip86":
+		sopts = append(sopts, musig2.WithBip86SignTweak())
+	case tap != "":
+		sopts = append(sopts, musig2.WithTaprootSignTweak(tapRoot))
+	case len(itw) > 0:
 		sopts = append(sopts, musig2.WithTweaks(itw...))
 	}
 	if sorted {
@@ -358,6 +421,13 @@ func kindMusig(f *failer) {
 		psigs[i] = ps
 		if got := bigOfScalar(ps.S); got.Cmp(refec.Int(refPs[i])) != 0 {
 			f.bad("musig2.Sign/value", "position %d: btcd s=%s, BIP327 s=%x", i, bh(got), refPs[i])
+		}
+		var enc bytes.Buffer
+		var dec musig2.PartialSignature
+		if err := ps.Encode(&enc); err != nil || !bytes.Equal(enc.Bytes(), refPs[i]) {
+			f.bad("musig2.PartialSignature.Encode", "position %d: err=%v bytes %x want %x", i, err, enc.Bytes(), refPs[i])
+		} else if err := dec.Decode(bytes.NewReader(enc.Bytes())); err != nil || !dec.S.Equals(ps.S) {
+			f.bad("musig2.PartialSignature.Decode/roundtrip", "position %d: err=%v", i, err)
 		}
 		if got := pointOfPub(ps.R); !refec.Equal(got, sv.R) {
 			f.bad("musig2.Sign/R", "position %d: btcd R=%s, BIP327 R=%s", i, pointStr(got), pointStr(sv.R))
@@ -385,15 +455,21 @@ func kindMusig(f *failer) {
 	}
 	s0 := refec.Int(refPs[0])
 	verdict("s+1", new(big.Int).Mod(new(big.Int).Add(s0, bigOne), refec.N), 0, 0)
-	verdict("n-s", new(big.Int).Mod(new(big.Int).Sub(refec.N, s0), refec.N), 0, 0)
 	if u >= 2 {
 		verdict("other-signers-nonce-and-key", s0, 1, 1)
 		verdict("other-signers-key", s0, 0, u-1)
+	} else {
+		verdict("n-s", new(big.Int).Mod(new(big.Int).Sub(refec.N, s0), refec.N), 0, 0)
 	}
 
 	// ---- combination
 	var copts []musig2.CombineOption
-	if len(itw) > 0 {
+	switch {
+	case tap == "bip86":
+		copts = append(copts, musig2.WithBip86TweakedCombine(msg32, clonePubs(pubs), sorted))
+	case tap != "":
+		copts = append(copts, musig2.WithTaprootTweakedCombine(msg32, clonePubs(pubs), tapRoot, sorted))
+	case len(itw) > 0:
 		copts = append(copts, musig2.WithTweakedCombine(msg32, clonePubs(pubs), itw, sorted))
 	}
 	final := musig2.CombineSigs(psigs[0].R, psigs, copts...)
@@ -420,21 +496,55 @@ func kindMusig(f *failer) {
 	if got := final.Verify(msg, agg.FinalKey); got != wantFinalOK {
 		f.bad("musig2.CombineSigs/verifies-under-impl", "final signature %x: btcd verify=%v, BIP340 (reference)=%v", fb, got, wantFinalOK)
 	}
-	if got := refec.SchnorrVerify(refec.XBytes(kc.Q), msg, fb); got != wantFinalOK {
+	if bytes.Equal(fb, refFinal) {
+		// same bytes, same verdict
+	} else if got := refec.SchnorrVerify(refec.XBytes(kc.Q), msg, fb); got != wantFinalOK {
 		f.bad("musig2.CombineSigs/verifies-under-reference", "final signature %x: BIP340 verify=%v, expected %v", fb, got, wantFinalOK)
 	}
 
 	// ---- the same run through Context / Session
 	sess := make([]*musig2.Session, u)
 	for i := range ds {
-		co := []musig2.ContextOption{musig2.WithKnownSigners(clonePubs(pubs))}
-		if len(itw) > 0 {
+		// with sorting, signer 0 learns the other signers one by one
+		// (WithNumSigners + RegisterSigner); everybody else knows them upfront
+		incremental := sorted && i == 0 && u >= 2
+		var co []musig2.ContextOption
+		if incremental {
+			co = append(co, musig2.WithNumSigners(u))
+		} else {
+			co = append(co, musig2.WithKnownSigners(clonePubs(pubs)))
+		}
+		switch {
+		case tap == "bip86":
+			co = append(co, musig2.WithBip86TweakCtx())
+		case tap != "":
+			co = append(co, musig2.WithTaprootTweakCtx(tapRoot))
+		case len(itw) > 0:
 			co = append(co, musig2.WithTweakedContext(itw...))
 		}
 		ctx, err := musig2.NewContext(privs[i], sorted, co...)
 		if err != nil {
 			f.bad("musig2.NewContext/error", "position %d: %v", i, err)
 			return
+		}
+		if incremental {
+			all := false
+			for j := 1; j < u; j++ {
+				if all, err = ctx.RegisterSigner(pubs[j]); err != nil {
+					f.bad("musig2.Context.RegisterSigner/error", "registering %d: %v", j, err)
+					return
+				}
+			}
+			if !all {
+				f.bad("musig2.Context.RegisterSigner/count", "all signers registered but haveAll=false")
+				return
+			}
+		}
+		if tap != "" {
+			ik, err := ctx.TaprootInternalKey()
+			if err != nil || !refec.Equal(pointOfPub(ik), kc0.Q) {
+				f.bad("musig2.Context.TaprootInternalKey", "position %d: err=%v / key differs from BIP327 KeyAgg", i, err)
+			}
 		}
 		ckey, err := ctx.CombinedKey()
 		if err != nil || !refec.Equal(pointOfPub(ckey), kc.Q) {
@@ -506,7 +616,6 @@ func kindMusig(f *failer) {
 			f.bad("musig2.Session.FinalSig/value", "got %x, BIP327 %x", fs, refFinal)
 		}
 	}
-	_ = schnorr.SignatureSize
 }
 
 // kindMusigTweak: AggregateKeys with one boundary tweak value.
@@ -596,7 +705,7 @@ func kindMusigBadNonce(f *failer) {
 		_, _, werr := refec.NonceAgg(refAll)
 		_, ierr := musig2.AggregateNonces(all)
 		if (ierr == nil) != (werr == nil) {
-			f.bad("musig2.AggregateNonces/invalid-pubnonce", "btcd err=%v, BIP327 NonceAgg err=%v for pubnonce %x", ierr, werr, bad)
+			f.bad("musig2-nonce-encoding/AggregateNonces", "btcd err=%v, BIP327 NonceAgg err=%v for pubnonce %x", ierr, werr, bad)
 		}
 		// PartialSigVerify with the real aggregate nonce
 		sc := &refec.SessionCtx{AggNonce: refAgg, PubKeys: pkb, Msg: msg}
@@ -627,7 +736,7 @@ func kindMusigBadNonce(f *failer) {
 		ps := musig2.NewPartialSignature(scalarOf(s), privOf(bigOne).PubKey())
 		got := ps.Verify(badPN, aggNonce, clonePubs(pubs), pubs[0], msg32)
 		if got != want {
-			f.bad("musig2.PartialSignature.Verify/invalid-pubnonce", "btcd=%v, BIP327=%v for pubnonce %x", got, want, bad)
+			f.bad("musig2-nonce-encoding/PartialSignature.Verify", "btcd=%v, BIP327=%v for pubnonce %x", got, want, bad)
 		}
 	case "agg":
 		bad := append([]byte{}, refAgg...)
@@ -642,7 +751,7 @@ func kindMusigBadNonce(f *failer) {
 		_, werr := refec.GetSessionValues(sc)
 		_, ierr := musig2.Sign(sn, privs[0], badAgg, clonePubs(pubs), msg32, musig2.WithFastSign())
 		if (ierr == nil) != (werr == nil) {
-			f.bad("musig2.Sign/invalid-aggnonce", "btcd err=%v, BIP327 err=%v for aggnonce %x", ierr, werr, bad)
+			f.bad("musig2-nonce-encoding/Sign", "btcd err=%v, BIP327 err=%v for aggnonce %x", ierr, werr, bad)
 		}
 	default:
 		R.Broken("bad where")
@@ -657,17 +766,34 @@ func musigKeyTriples() [][]named {
 	return t
 }
 
-func genMusigCases(bounds map[string]interface{}) []Case {
-	var cases []Case
-	maxLen := R.Pick(4, 5)
-	maxTw := R.Pick(2, 3)
-	tweakVals := [][]byte{refec.Bytes32(derivedScalar("tweak-1")), refec.Bytes32(derivedScalar("tweak-2")), refec.Bytes32(derivedScalar("tweak-3"))}
-	// tweak chains: every sequence over {p,x} of length <= maxTw
+// keyLists returns every sequence of length 1..maxLen over {0,1,2}.
+func keyLists(maxLen int) [][]int {
+	var lists [][]int
+	var gen func(cur []int)
+	gen = func(cur []int) {
+		if len(cur) > 0 {
+			lists = append(lists, append([]int{}, cur...))
+		}
+		if len(cur) == maxLen {
+			return
+		}
+		for k := 0; k < 3; k++ {
+			gen(append(cur, k))
+		}
+	}
+	gen(nil)
+	return lists
+}
+
+// tweakChains returns every sequence over {p,x} with minLen <= length <= maxLen.
+func tweakChains(minLen, maxLen int) [][]string {
 	var chains [][]string
 	var rec func(cur []string)
 	rec = func(cur []string) {
-		chains = append(chains, append([]string{}, cur...))
-		if len(cur) == maxTw {
+		if len(cur) >= minLen {
+			chains = append(chains, append([]string{}, cur...))
+		}
+		if len(cur) == maxLen {
 			return
 		}
 		for _, k := range []string{"p", "x"} {
@@ -675,28 +801,18 @@ func genMusigCases(bounds map[string]interface{}) []Case {
 		}
 	}
 	rec(nil)
-	msgs := []named{{"sha256('c11/musig')", refec.Int(sha("c11/musig"))}}
-	if R.Thorough() {
-		msgs = append(msgs, named{"0", big.NewInt(0)})
-	}
-	nlists := 0
-	for ti, triple := range musigKeyTriples() {
-		// all key lists of length 1..maxLen over the triple (with duplicates, every order)
-		var lists [][]int
-		var gen func(cur []int)
-		gen = func(cur []int) {
-			if len(cur) > 0 {
-				lists = append(lists, append([]int{}, cur...))
-			}
-			if len(cur) == maxLen {
-				return
-			}
-			for k := 0; k < 3; k++ {
-				gen(append(cur, k))
-			}
-		}
-		gen(nil)
-		nlists += len(lists)
+	return chains
+}
+
+func genMusigCases(bounds map[string]interface{}) []Case {
+	var cases []Case
+	tweakVals := [][]byte{refec.Bytes32(derivedScalar("tweak-1")), refec.Bytes32(derivedScalar("tweak-2")), refec.Bytes32(derivedScalar("tweak-3"))}
+	msgMain := named{"sha256('c11/musig')", refec.Int(sha("c11/musig"))}
+	msgZero := named{"0", big.NewInt(0)}
+	triples := musigKeyTriples()
+	var blocks []string
+	emit := func(triple []named, lists [][]int, chains [][]string, taps []string, m named, what string) {
+		n0 := len(cases)
 		for _, l := range lists {
 			var ks, kn []string
 			for _, k := range l {
@@ -709,28 +825,42 @@ func genMusigCases(bounds map[string]interface{}) []Case {
 					for i, k := range ch {
 						tw = append(tw, k+":"+hx(tweakVals[i]))
 					}
-					for _, m := range msgs {
-						if ti > 0 && m.name == "0" {
-							continue
-						}
-						cases = append(cases, Case{Kind: "musig", F: map[string]string{
-							"keys": strings.Join(ks, ","), "sort": srt, "tweaks": strings.Join(tw, ","), "msg": hx(refec.Bytes32(m.v)),
-							"label": fmt.Sprintf("keys=[%s]/sort=%s/tweaks=[%s]/m=%s", strings.Join(kn, ","), srt, strings.Join(ch, ","), m.name),
-						}})
-					}
+					cases = append(cases, Case{Kind: "musig", F: map[string]string{
+						"keys": strings.Join(ks, ","), "sort": srt, "tweaks": strings.Join(tw, ","), "msg": hx(refec.Bytes32(m.v)),
+						"label": fmt.Sprintf("keys=[%s]/sort=%s/tweaks=[%s]/m=%s", strings.Join(kn, ","), srt, strings.Join(ch, ","), m.name),
+					}})
+				}
+				for _, tp := range taps {
+					cases = append(cases, Case{Kind: "musig", F: map[string]string{
+						"keys": strings.Join(ks, ","), "sort": srt, "tweaks": "", "tap": tp, "msg": hx(refec.Bytes32(m.v)),
+						"label": fmt.Sprintf("keys=[%s]/sort=%s/taproot=%s/m=%s", strings.Join(kn, ","), srt, strings.SplitN(tp, ":", 2)[0], m.name),
+					}})
 				}
 			}
 		}
+		blocks = append(blocks, fmt.Sprintf("%s: %d cases", what, len(cases)-n0))
+	}
+	taps := []string{"bip86", "root:" + hx(sha("c11/script-root"))}
+	if !R.Thorough() {
+		emit(triples[0], keyLists(4), tweakChains(0, 2), nil, msgMain,
+			"keys {3,1,n-2}: all 120 lists of length 1..4 (duplicates, every order) x sort{0,1} x all 7 tweak chains of length <= 2 over {plain,x-only}")
+		emit(triples[0], keyLists(3), nil, taps, msgMain,
+			"keys {3,1,n-2}: all 39 lists of length 1..3 x sort{0,1} x taproot {BIP86, script root}")
+	} else {
+		emit(triples[0], keyLists(5), tweakChains(0, 2), nil, msgMain,
+			"keys {3,1,n-2}: all 363 lists of length 1..5 x sort{0,1} x all 7 tweak chains of length <= 2")
+		emit(triples[0], keyLists(3), tweakChains(3, 3), taps, msgMain,
+			"keys {3,1,n-2}: all 39 lists of length 1..3 x sort{0,1} x (all 8 tweak chains of length 3 + taproot {BIP86, script root})")
+		emit(triples[0], keyLists(3), tweakChains(0, 2), nil, msgZero,
+			"keys {3,1,n-2}, message 0: all 39 lists of length 1..3 x sort{0,1} x 7 tweak chains")
+		emit(triples[1], keyLists(4), tweakChains(0, 2), taps[:1], msgMain,
+			"derived key triple: all 120 lists of length 1..4 x sort{0,1} x (7 tweak chains + BIP86)")
 	}
 	bounds["musig2_sessions"] = map[string]interface{}{
-		"key_triples":     len(musigKeyTriples()),
-		"keys":            "d in {3, 1, n-2} (compressed encodings 02f9.., 0279.., 03c6..: both parities, list order != sorted order)",
-		"key_lists":       fmt.Sprintf("all sequences of length 1..%d over 3 keys, with duplicates, every ordering: %d lists", maxLen, nlists),
-		"sort_flag":       "false, true",
-		"tweak_chains":    fmt.Sprintf("every sequence over {plain, x-only} of length <= %d: %d chains", maxTw, len(chains)),
-		"messages":        names(msgs),
+		"keys":            "d in {3, 1, n-2} (compressed encodings 02f9.., 0279.., 03c6..: both parities, list order != sorted order); thorough adds a derived triple",
+		"blocks":          blocks,
 		"nonces":          "GenNonces(WithCustomRand(fixed per position), WithPublicKey, WithNonceSecretKeyAux) compared with BIP327 NonceGen",
-		"per_case_checks": "AggregateKeys (Q, pre-tweak Q, gacc, tacc, sort order), L / second key / every coefficient, AggregateNonces, Sign per position (+FastSign), PartialSignature.Verify (valid, s+1, n-s, other signer), CombineSigs, BIP340 verify (impl and refec), Context/Session flow",
+		"per_case_checks": "AggregateKeys (Q, pre-tweak Q, gacc, tacc, sort order), L / second key / every coefficient, AggregateNonces, Sign per position (+FastSign), Encode/Decode, PartialSignature.Verify (valid, s+1 or n-s, other signer's nonce/key), CombineSigs, BIP340 verify (impl and refec), Context/Session flow (known signers; RegisterSigner when sorted)",
 		"cases":           len(cases),
 	}
 	return cases
@@ -816,7 +946,14 @@ func genMusigEdgeCases(bounds map[string]interface{}) []Case {
 			}
 		}
 	}
+	for _, v := range []*big.Int{big.NewInt(0), big.NewInt(1), nM1, refec.N, nP1, pM1, refec.P, max256} {
+		cases = append(cases, Case{Kind: "psig-decode", F: map[string]string{"b": hx(refec.Bytes32(v)), "label": "psig=" + symName(v)}})
+	}
+	cases = append(cases, Case{Kind: "psig-decode", F: map[string]string{"b": hx(make([]byte, 31)), "label": "psig/len=31"}})
+	cases = append(cases, Case{Kind: "psig-decode", F: map[string]string{"b": "", "label": "psig/len=0"}})
+	cases = append(cases, Case{Kind: "psig-decode", F: map[string]string{"b": hx(make([]byte, 33)), "label": "psig/len=33"}})
 	bounds["musig2_edges"] = map[string]interface{}{
+		"psig_decode":    "0, 1, n-1, n, n+1, p-1, p, 2^256-1; lengths 0, 31, 33",
 		"tweak_values":   "0, 1, n-1, n, n+1, 2^256-1, -q, q, -q+1 (q = aggregate secret key), plain and x-only, first and second in a chain, 4 key lists",
 		"nonce_cancel":   "two signers with secret nonces (k1,k2) and (-k1,-k2) / (-k1,k3) / (k3,-k2): aggregate nonce halves at infinity",
 		"nonce_encoding": "each half of a public nonce / of the aggregate nonce replaced by: 33 zero bytes, 00||x, 00||0..01, 04||x, ff||x, 02||off-curve, 02||p, 03||p+1, valid",
